@@ -8,10 +8,21 @@ def Pc.writing : Pc → Option Side
   | .wF2 _ l | .wRf _ l | .wRfC _ l => some l
   | _ => none
 
+@[simp] theorem waitSeen_eq (op : OpId) (l : Side) (zL zR : Bool) (c : Side) :
+    waitSeen op l zL zR c = .wWait op l (zL || decide (c = .L)) (zR || decide (c = .R)) := by
+  cases c <;> simp [waitSeen]
+
+/-- `strict` is a configuration constant -/
+theorem step_strict {s s' : St} {t : Tid} {e : Ev} (hs : step s t e = some s') : s'.strict = s.strict := by
+  unfold step at hs
+  split at hs <;> (try split at hs) <;> (try split at hs) <;> (try split at hs) <;> (try (simp at hs; done)) <;>
+    (try (injection hs with hs; subst hs; simp; done))
+  all_goals (rw [stutter_eq hs])
+
 /-- a step changes only the pc of the thread that makes it -/
 theorem step_pc_other {s s' : St} {t u : Tid} {e : Ev} (hs : step s t e = some s') (hu : u ≠ t) : s'.pc u = s.pc u := by
   unfold step at hs
-  split at hs <;> (try split at hs) <;> (try split at hs) <;> (try (simp at hs; done)) <;>
+  split at hs <;> (try split at hs) <;> (try split at hs) <;> (try split at hs) <;> (try (simp at hs; done)) <;>
     (try (injection hs with hs; subst hs; simp [hu]; done))
   all_goals (rw [stutter_eq hs])
 
@@ -19,7 +30,7 @@ theorem step_pc_other {s s' : St} {t u : Tid} {e : Ev} (hs : step s t e = some s
 theorem step_val {s s' : St} {t : Tid} {e : Ev} (x : Side) (hs : step s t e = some s') :
     s'.val x = s.val x ∨ (s.pc t).writing = some x := by
   unfold step at hs
-  split at hs <;> (try split at hs) <;> (try split at hs) <;> (try (simp at hs; done)) <;>
+  split at hs <;> (try split at hs) <;> (try split at hs) <;> (try split at hs) <;> (try (simp at hs; done)) <;>
     (try (injection hs with hs; subst hs; left; cases x <;> simp [St.val]; done))
   all_goals first
     | (rw [stutter_eq hs]; exact Or.inl rfl)
@@ -32,7 +43,7 @@ theorem step_committed {s s' : St} {t : Tid} {e : Ev} (hs : step s t e = some s'
     s'.committed = s.committed ∨
     ∃ op l, s.pc t = .wF1d op l ∧ e = .stRL l.flip ∧ s'.rl = l.flip ∧ s'.committed = s.committed ++ [op] := by
   unfold step at hs
-  split at hs <;> (try split at hs) <;> (try split at hs) <;> (try (simp at hs; done)) <;>
+  split at hs <;> (try split at hs) <;> (try split at hs) <;> (try split at hs) <;> (try (simp at hs; done)) <;>
     (try (injection hs with hs; subst hs; left; simp; done))
   all_goals first
     | (rw [stutter_eq hs]; exact Or.inl rfl)
@@ -64,11 +75,12 @@ theorem step_hold {s s' : St} {r : Tid} {e : Ev} {c x : Side} (hpc : s.pc r = .r
 theorem step_to_ret {s s' : St} {t : Tid} {e : Ev} {op : OpId} (hs : step s t e = some s') (h' : s'.pc t = .wRet op) :
     ∃ l, s.pc t = .wF2d op l ∧ s'.committed = s.committed := by
   unfold step at hs
-  split at hs <;> (try split at hs) <;> (try split at hs) <;> (try (simp at hs; done)) <;>
+  split at hs <;> (try split at hs) <;> (try split at hs) <;> (try split at hs) <;> (try (simp at hs; done)) <;>
     (try (injection hs with hs; subst hs; simp at h'; done))
   all_goals first
     | (rename_i hpc _; injection hs with hs; subst hs; simp at h'; subst h'; exact ⟨_, hpc, rfl⟩)
     | (rename_i hp; rw [stutter_eq hs] at h'; rw [h'] at hp; simp [Pc.post] at hp; done)
+    | (injection hs with hs; subst hs; rename_i hpc _ _ _; rw [hpc] at h'; cases h')
     | (injection hs with hs; subst hs; rename_i hpc _ _; rw [hpc] at h'; cases h')
     | (injection hs with hs; subst hs; rename_i hpc _; rw [hpc] at h'; cases h')
     | (injection hs with hs; subst hs; rename_i hpc; rw [hpc] at h'; cases h')
@@ -80,12 +92,13 @@ theorem step_to_exc {s s' : St} {t : Tid} {e : Ev} {op : OpId} {fwd : Bool} (hs 
     s'.committed = s.committed ∧
     ((fwd = false ∧ ∃ l, s.pc t = .wRbD op l) ∨ (fwd = true ∧ ∃ l, s.pc t = .wRfD op l)) := by
   unfold step at hs
-  split at hs <;> (try split at hs) <;> (try split at hs) <;> (try (simp at hs; done)) <;>
+  split at hs <;> (try split at hs) <;> (try split at hs) <;> (try split at hs) <;> (try (simp at hs; done)) <;>
     (try (injection hs with hs; subst hs; simp at h'; done))
   all_goals first
     | (rename_i hpc _; injection hs with hs; subst hs; simp at h'; obtain ⟨rfl, rfl⟩ := h'
        exact ⟨rfl, by simp [hpc]⟩)
     | (rename_i hp; rw [stutter_eq hs] at h'; rw [h'] at hp; simp [Pc.post] at hp; done)
+    | (injection hs with hs; subst hs; rename_i hpc _ _ _; rw [hpc] at h'; cases h')
     | (injection hs with hs; subst hs; rename_i hpc _ _; rw [hpc] at h'; cases h')
     | (injection hs with hs; subst hs; rename_i hpc _; rw [hpc] at h'; cases h')
     | (injection hs with hs; subst hs; rename_i hpc; rw [hpc] at h'; cases h')
@@ -113,15 +126,15 @@ theorem retinv_step {s s' : St} {t : Tid} {e : Ev} (hf : Full s) (h : RetInv s) 
     exact (step_committed_le hs).subset (h u op hu)
 
 theorem ret_committed {s : St} (h : Reachable s) : RetInv s := by
-  obtain ⟨es, hes⟩ := h
+  obtain ⟨b, es, hes⟩ := h
   have := runFrom_inv (Inv := fun s => Full s ∧ RetInv s)
     (fun _ _ _ _ hi hst => ⟨full_step hi.1 hst, retinv_step hi.1 hi.2 hst⟩)
-    ⟨full_init, by intro t op h; simp [init] at h⟩ hes
+    ⟨full_init b, by intro t op h; simp [init] at h⟩ hes
   exact this.2
 
 theorem reachable_run {s s' : St} {es : List (Tid × Ev)} (h : Reachable s) (hr : run s es = some s') : Reachable s' := by
-  obtain ⟨es0, h0⟩ := h
-  refine ⟨es0 ++ es, ?_⟩
+  obtain ⟨b, es0, h0⟩ := h
+  refine ⟨b, es0 ++ es, ?_⟩
   simp only [run] at *
   rw [runFrom_append, h0]; exact hr
 
@@ -143,7 +156,7 @@ theorem step_snap {s s' : St} {t : Tid} {e : Ev} (hs : step s t e = some s') (u 
   by_cases hut : u = t
   · subst hut
     unfold step at hs
-    split at hs <;> (try split at hs) <;> (try split at hs) <;> (try (simp at hs; done)) <;>
+    split at hs <;> (try split at hs) <;> (try split at hs) <;> (try split at hs) <;> (try (simp at hs; done)) <;>
       (try (injection hs with hs; subst hs; rename_i hpc; left; simp [hpc, Pc.inRead]; done)) <;>
       (try (injection hs with hs; subst hs; rename_i hpc _; left; simp [hpc, Pc.inRead]; done)) <;>
       (try (injection hs with hs; subst hs; rename_i hpc _ _; left; simp [hpc, Pc.inRead]; done))
@@ -155,7 +168,7 @@ theorem step_snap {s s' : St} {t : Tid} {e : Ev} (hs : step s t e = some s') (u 
     rw [step_pc_other hs hut]
     refine ⟨?_, id⟩
     unfold step at hs
-    split at hs <;> (try split at hs) <;> (try split at hs) <;> (try (simp at hs; done)) <;>
+    split at hs <;> (try split at hs) <;> (try split at hs) <;> (try split at hs) <;> (try (simp at hs; done)) <;>
       (try (injection hs with hs; subst hs; simp [hut]; done))
     all_goals (rw [stutter_eq hs])
 
@@ -174,7 +187,7 @@ def Pc.rdLeft : Pc → Nat
 theorem step_base {s s' : St} {t : Tid} {e : Ev} (hs : step s t e = some s') :
     s'.base = s.base ∨ (e = .lock ∧ s'.base = s.committed) := by
   unfold step at hs
-  split at hs <;> (try split at hs) <;> (try split at hs) <;> (try (simp at hs; done)) <;>
+  split at hs <;> (try split at hs) <;> (try split at hs) <;> (try split at hs) <;> (try (simp at hs; done)) <;>
     (try (injection hs with hs; subst hs; left; simp; done))
   all_goals first
     | (rw [stutter_eq hs]; exact Or.inl rfl)
